@@ -87,6 +87,34 @@ def emit(elems):
 
 
 def weave_region(repo, header, lines, start_line, tmpl_name, report):
+    try:
+        return _weave_region(repo, header, lines, start_line, tmpl_name, report)
+    except WeaveError as e:
+        m = re.match(r'//@extract\s+fn\s+(\S+)\s+"([^"]*)"\s+(\S+)\s*$', header)
+        if not m or 'ANCHOR-LOST' not in str(e) or 'item not found' in str(e) or 'ambiguous' in str(e):
+            raise
+        rel, key, name = m.groups()
+        # degrade: keep the annotated baseline text as an *assumed* (external_body) item so that the rest of the unit
+        # still verifies; the obligation of this function is reported as undecided (never as discharged)
+        elems = rustlex.lex("\n".join(lines), template=True)
+        named = {}
+        for el in elems:
+            if el.kind == 'tok' and el.deleted and el.region and el.region[1]:
+                named.setdefault(el.region[1], []).append(el.text)
+        for el in elems:
+            if el.kind == 'ins' and '$' in el.text:
+                for nm, toks_ in named.items():
+                    el.text = el.text.replace('$' + nm, ' '.join(toks_))
+        typ = key.split(' for ')[-1] if key else ''
+        stem = os.path.splitext(os.path.basename(rel))[0]
+        report['items'].append({'item': '%s::%s%s' % (rel, (key + '::') if key else '', name), 'kind': 'fn', 'file': rel, 'lines': [0, 0], 'tokens': 0,
+                                'token_sha': '', 'identical_to_annotated_baseline': False, 'normalisations': [], 'transplanted_hunks': [],
+                                'template': '%s:%d' % (tmpl_name, start_line), 'anchor_lost': str(e),
+                                'obligation': '::'.join(x for x in (stem, typ, name) if x)})
+        return '// ---- ANCHOR LOST (body assumed, obligation undecided): %s\n#[verifier::external_body]\n' % str(e).replace('\n', ' ')[:300] + emit(elems).lstrip('\n') + '\n'
+
+
+def _weave_region(repo, header, lines, start_line, tmpl_name, report):
     m = re.match(r'//@extract\s+(fn)\s+(\S+)\s+"([^"]*)"\s+(\S+)\s*$', header) or \
         re.match(r'//@extract\s+(struct|enum)\s+(\S+)\s+()(\S+)\s*$', header)
     if not m:
